@@ -66,6 +66,12 @@ def cases(rng, tier, shard, nshards, phase):
             continue
         spec = gen.gen_ranked_spec(rng, nmin=1, nmax=6, ties=True, partial=True, bmin=1, bmax=8)
         n = len(spec["c"])
+        if op in ("remove_cand", "add_missing") and rng.random() < 0.35:
+            # uncleaned ballots: a candidate written more than once (as a CVR loader may produce)
+            for b in spec["b"]:
+                if b["r"] and rng.random() < 0.5:
+                    for _ in range(rng.randint(1, 3)):
+                        b["r"].insert(rng.randint(0, len(b["r"])), [rng.choice([c for s in b["r"] for c in s])])
         if op == "remove_cand":
             for b in spec["b"]:
                 k = rng.random()
